@@ -409,17 +409,20 @@ class Runner(Exec):
                 st.env[n] = self.havoc_like(st.env[n], n)
                 if n in st.defd and not z3.is_true(st.defd[n]):
                     st.defd[n] = ctx.fresh("def_" + n, z3.BoolSort())
-        for (refz, field) in heap_mods:
+        for (refz, field, cond) in heap_mods:
             arr = ctx.field_array(st, field, None)
             if refz is None:
                 st.heap[field] = ctx.fresh("Hv_" + field, arr.sort())
             else:
                 fv = ctx.fresh("hv_" + field, arr.sort().range())
+                if cond is not None:
+                    fv = z3.If(cond, fv, arr[refz])
                 ctx.set_field_array(st, field, z3.Store(arr, refz, fv))
         assume_invs(st)
         # 3. one arbitrary iteration
         ctl = LoopCtl()
         fr.loops.append(ctl)
+        self.run_ghost(st, "%s.head" % tag)
         if mode is None:
             c = truth(ctx, st, self.ev(st, s.test), s.test)
             exit_st = st.fork(z3.Not(c))
@@ -434,11 +437,13 @@ class Runner(Exec):
             else:
                 self.assign_target(body_st, s.target, self.load_elem(body_st, mode[1], k, s), s)
             body_st.env[hidden] = mk_int(k + step)
+        self.run_ghost(body_st, "%s.body_start" % tag)
         self.run_block(body_st, body)
         ends = [body_st] + ctl.continues
         fr.loops.pop()
         for e in ends:
             if not e.dead:
+                self.run_ghost(e, "%s.body_end" % tag)
                 check_invs(e, "preserve")
         # 4. after the loop
         if mode is not None and isinstance(s.target, ast.Name):
@@ -448,6 +453,23 @@ class Runner(Exec):
             prevd = pre.defd.get(s.target.id, z3.BoolVal(False)) if s.target.id in pre.env else z3.BoolVal(False)
             exit_st.defd[s.target.id] = z3.simplify(z3.Or(prevd, k != lo))
         merge_states(ctx, [exit_st] + ctl.breaks, st)
+        self.run_ghost(st, "%s.after" % tag)
+
+    def run_ghost(self, st, where):
+        """Ghost statements the contract attaches to a program point (lemma uses, unfoldings, asserts)."""
+        fr = self.ctx.frames[-1]
+        c = getattr(fr, "contract", None)
+        if c is None or st.dead:
+            return
+        for (txt, node) in c.ghost.get(where, []):
+            if isinstance(node, ast.Call) and isinstance(node.func, ast.Name) and node.func.id == "check":
+                z = self.ev_spec(st, node.args[0])
+                self.ctx.oblige(st, z, "ghost-assert", None, "%s: %s" % (where, txt))
+                self.ctx.assume(st, z)
+            else:
+                # ghost calls (use/unfold/lemma calls): obligations stay on (lemma preconditions are checked)
+                tmp = st.fork()
+                self.ev(tmp, node)
 
     def havoc_like(self, v, name):
         ctx = self.ctx
@@ -465,6 +487,8 @@ class Runner(Exec):
             return mk_tuple([self.havoc_like(x, name) for x in v.z])
         if v.k == "none":
             return v
+        if v.k == "array":
+            return SV("array", ctx.fresh(name, AII))
         if v.k == "conc":
             lifted = lift_conc(ctx, v)
             if lifted.k != "conc":
@@ -480,13 +504,15 @@ class Runner(Exec):
         ctx = self.ctx
         out = []
 
-        def add(refz, field):
-            for (r, f) in out:
+        def add(refz, field, cond=None):
+            for i, (r, f, c) in enumerate(out):
                 if f == field and (r is None or (refz is not None and r.eq(refz))):
+                    if c is not None and (cond is None or not c.eq(cond)):
+                        out[i] = (r, f, None)
                     return
             if refz is None:
-                out[:] = [(r, f) for (r, f) in out if f != field]
-            out.append((refz, field))
+                out[:] = [(r, f, c) for (r, f, c) in out if f != field]
+            out.append((refz, field, cond))
 
         def stable_ref(expr):
             """z3 ref of expr evaluated at the loop head if it cannot change in the loop."""
@@ -547,13 +573,20 @@ class Runner(Exec):
                 v.generic_visit(n)
 
             def visit_Call(v, n):
-                for (refexpr_sv, field) in callee_effects(self, st, n, assigned, stable_ref):
-                    add(refexpr_sv, field)
+                for eff in callee_effects(self, st, n, assigned, stable_ref):
+                    add(*eff)
                 v.generic_visit(n)
 
         for s in stmts:
             V().visit(s)
-        return out
+        # a condition is only usable if nothing it reads can change inside the loop
+        modified = set(f for (_, f, _) in out)
+        final = []
+        for (r, f, c) in out:
+            if c is not None and (_arrays_in(c) & modified):
+                c = None
+            final.append((r, f, c))
+        return final
 
     def field_arrays_of(self, key):
         t = self.field_type(key)
@@ -578,6 +611,28 @@ class Runner(Exec):
         finally:
             ctx.spec_mode = saved
         return truth(ctx, tmp, v, node)
+
+
+def _arrays_in(e):
+    """Heap field names whose array constants occur in a z3 term."""
+    out = set()
+    seen = set()
+    stack = [e]
+    while stack:
+        t = stack.pop()
+        if t.get_id() in seen:
+            continue
+        seen.add(t.get_id())
+        if z3.is_const(t) and t.decl().kind() == z3.Z3_OP_UNINTERPRETED:
+            n = t.decl().name()
+            for pre in ("H0_", "Hv_", "H_"):
+                if n.startswith(pre):
+                    out.add(n[len(pre):].split("!")[0])
+        elif z3.is_app(t):
+            stack.extend(t.children())
+        elif z3.is_quantifier(t):
+            stack.append(t.body())
+    return out
 
 
 class ExcInstance(object):
